@@ -91,3 +91,20 @@ mod test {
         assert_eq!(cm.estimate(hash), 2);
     }
 }
+
+#[cfg(feature = "verif-hooks")]
+impl CountMinSketch {
+    pub(crate) fn verif_rows(&self) -> alloc::vec::Vec<alloc::vec::Vec<u8>> {
+        self.rows.iter().map(|r| r.verif_counters()).collect()
+    }
+
+    pub(crate) fn verif_seeds(&self) -> Option<[u64; DEPTH]> {
+        None
+    }
+
+    pub(crate) fn verif_mask(&self) -> u64 {
+        self.mask
+    }
+
+    pub(crate) fn verif_set_seeds(&mut self, _seeds: [u64; DEPTH]) {}
+}
